@@ -96,7 +96,10 @@ var ReplaceNumbersInWords = false
 func GetFingerprint(q string) string {
 	q += " " // need range to run off end of original query
 	prevWord := ""
-	f := make([]byte, len(q)+1)
+	// The fingerprint can be longer than the query: a collapsed list grows
+	// ("in(1)" -> "in(?+)") and blanks are inserted after copied words, but
+	// never more than one extra byte per input byte.
+	f := make([]byte, 2*len(q)+4)
 	fi := 0
 	pr := rune(0) // previous rune
 	s := unknown  // current state
